@@ -58,8 +58,8 @@ func runC07(c *Ctx) {
 	}
 	// log.New rows
 	rows := map[string]string{
-		"broker.main":                     "metrics logger: used only by printMetrics, which prints counts, country codes and sizes",
-		"proxy/lib.NewProxyEventLogger":   "periodic summary: prints a connection count and traffic volumes",
+		"broker.main":                   "metrics logger: used only by printMetrics, which prints counts, country codes and sizes",
+		"proxy/lib.NewProxyEventLogger": "periodic summary: prints a connection count and traffic volumes",
 	}
 	nNew := 0
 	for _, fn := range p.FnsIn() {
@@ -76,8 +76,8 @@ func runC07(c *Ctx) {
 	if f := p.Field("broker", "Metrics", "logger"); f != nil {
 		bad := 0
 		for _, a := range accessesOfField(p.FnsIn("broker"), f, false) {
-			n := a.Fn.Name()
-			if a.Kind == accRead && n != "printMetrics" {
+			pm := p.Fn("broker", "(*Metrics).printMetrics")
+			if a.Kind == accRead && (pm == nil || !belongsTo(a.Fn, pm)) {
 				bad++
 				c.viol(rule1, p.FnName(a.Fn)+" uses the metrics logger", p.instrPos(a.Instr), "the unscrubbed metrics logger is used outside printMetrics")
 			}
